@@ -157,6 +157,47 @@ def run(chk):
             worst = max(len(getattr(ck, attr)(n)) for n in ck.nodes())
             prob = {"problem": f"{attr} bound exceeded", "max": worst, "naming": ren} if worst > 2 else same_function(c, ck, sorted(c.nodes()))
             chk.ob(f"C05.S.{fname}", key, prob is None, file=FILE, func=fname, fact=prob or {"max": worst}, expect="bound holds at every node and every original node keeps its function, for every visiting order")
+    # helper names that already exist: a second pass with a smaller k, and a circuit that owns such a name
+    wide = [c for k_, c in fams if k_ in ("xnor5", "nand5", "or5", "wide")]
+    for c in wide:
+        r1 = P.call(FILE, "limit_fanin", c, 4)
+        if r1[0] != "return":
+            continue
+        for k2 in (2, 3):
+            r2 = P.call(FILE, "limit_fanin", r1[1], k2)
+            n_eval += 1
+            key = f"limit_fanin::second pass::{c.name}:{sorted(c.outputs())}::k=4 then {k2}"
+            if r2[0] != "return":
+                chk.ob("C05.S.limit_fanin", key, False, file=FILE, func="limit_fanin", fact={"result": str(r2)[:160]})
+                continue
+            ck = r2[1]
+            worst = max(len(ck.fanin(n)) for n in ck.nodes())
+            prob = {"problem": "fan-in bound exceeded", "max_fanin": worst} if worst > k2 else ({"problem": "result is cyclic"} if ck.is_cyclic() else same_function(c, ck, sorted(c.nodes())))
+            chk.ob("C05.S.limit_fanin", key, prob is None, file=FILE, func="limit_fanin", fact=prob or {"max_fanin": worst}, expect="a second pass keeps every original function")
+    owned = build({"a": ("input", []), "b": ("input", []), "c": ("input", []), "d": ("input", []), "g_limit_fanin_0": ("or", ["a", "d"]), "g": ("nand", ["a", "b", "c", "g_limit_fanin_0"]),
+                   "g_limit_fanout_0": ("not", ["a"]), "o": ("xor", ["g", "g_limit_fanout_0", "b", "c"])}, outputs=["o", "g"])
+    for fname, attr in (("limit_fanin", "fanin"), ("limit_fanout", "fanout")):
+        r = P.call(FILE, fname, owned, 2)
+        n_eval += 1
+        prob = {"result": str(r)[:160]} if r[0] != "return" else same_function(owned, r[1], sorted(owned.nodes()))
+        chk.ob(f"C05.S.{fname}", f"{fname}::circuit that owns a helper-style name", prob is None, file=FILE, func=fname, fact=prob or {}, expect="existing nodes are never overwritten (uid)")
+    for i, ren in enumerate(namings[:10]):
+        spec = {"a": ("input", []), "c": ("input", []), "d": ("input", []), "b": ("buf", ["a"]), "f1": ("xor", ["a", "b", "c"]), "f2": ("xnor", ["a", "d"]), "g": ("and", ["a", "c"]), "h": ("or", ["a", "d"])}
+        keys = list(spec)
+        pool = list(ren.values())[:len(keys)]
+        m = dict(zip(keys, pool))
+        c = build({m[n]: (t, [m[f] for f in fi]) for n, (t, fi) in spec.items()}, outputs=[m["f1"], m["f2"], m["g"], m["h"]])
+        for k in (2, 3):
+            r = P.call(FILE, "limit_fanout", c, k)
+            n_eval += 1
+            key = f"limit_fanout::load fed by a net and by its buffer::naming{i}::k={k}"
+            if r[0] != "return":
+                chk.ob("C05.S.limit_fanout", key, False, file=FILE, func="limit_fanout", fact={"result": str(r)[:160]})
+                continue
+            ck = r[1]
+            worst = max(len(ck.fanout(n)) for n in ck.nodes())
+            prob = {"problem": "fan-out bound exceeded", "max": worst} if worst > k else same_function(c, ck, sorted(c.nodes()))
+            chk.ob("C05.S.limit_fanout", key, prob is None, file=FILE, func="limit_fanout", fact=prob or {"max": worst}, expect="bound holds and every original node keeps its function")
     for fname in ("limit_fanin", "limit_fanout"):
         c = fams[0][1]
         for k in (1, 0):
@@ -225,4 +266,15 @@ def run(chk):
             prob = same_function(c, cu, sorted(c.outputs()))
         chk.ob("C05.S.acyclic_unroll-identity", key, prob is None, file=FILE, func="acyclic_unroll", line=fa.node.lineno, fact=prob or {"nodes": len(cu.nodes())},
                expect="acyclic_unroll of an acyclic circuit is equivalent to it")
+    from ..stale import circuit_snapshot, stale_state_rule
+    from ..minieval import ModelRaise
+
+    for fname in ("limit_fanin", "limit_fanout"):
+        def _call(c, fname=fname):
+            r = P.call(FILE, fname, c, 2)
+            if r[0] != "return":
+                raise ModelRaise(r[1], r[2] if len(r) > 2 else "")
+            return r[1]
+
+        stale_state_rule(chk, "C05.H.no-stale-state", _call, circuit_snapshot, FILE, fname)
     chk.floor("template evaluations", n_eval, 150)
